@@ -76,9 +76,25 @@ def run_nested(n):
             (Sensor([AttributeProbe('value', mid)], 's0', value=sv - 8), sv - 8),
             (PeriodicSensor(2.5, [AttributeProbe('value', mid)], 's1', value=sv - 9), sv - 9),
             (OutputPartSensor(mid, [AttributeProbe('value', None)], 1, 's2', value=sv - 10), sv - 10)]
-        system.simulate(n['d'] / T, print_summary=False)
+        # the run is split in two; further assets are created between the halves (simulation in progress) and from a receive
+        # callback of the sink: the net value of the system counts them like every other registered asset
+        late = []
+
+        def on_first(*_a):
+            if not late:
+                late.append(Asset('late_cb', value=vals[1] / T + 9))
+                late.append(Maintainer('late_mt', value=-(3 + vals[2] / T)))
+        snk.add_receive_part_callback(on_first)
+        d1 = (n['d'] // 2) / T
+        system.simulate(d1, print_summary=False)
+        late.append(Asset('late', value=vals[0] / T + 7))
+        late.append(Sink('late_snk', upstream=[mid]))
+        late.append(PartProcessor('late_p', value=13))
+        system.simulate(n['d'] / T - d1, print_summary=False)
         m1.add_cost('tools', 3)
         m2.add_cost('tools', 5)
+        late[-1].add_value('sold', 2)
+    built = [src, buf, mid, snk, m1, m2] + [a for a, _ in started] + late + system.find_assets(name='spare')
     items = list(snk.collected_parts)
     res = dict(items=[(common.to_ticks(it.value), common.to_ticks(_leaf_sum(Batch, it))) for it in items],
                inner=[(common.to_ticks(p.value), common.to_ticks(_leaf_sum(Batch, p))) for it in items for p in it.parts if isinstance(p, Batch)],
@@ -87,6 +103,8 @@ def run_nested(n):
                produced=src.produced_parts,
                net=common.to_ticks(system.get_net_value_of_assets()),
                sum_assets=common.to_ticks(sum(a.value for a in system._assets)),
+               sum_built=common.to_ticks(sum(a.value for a in built)), n_built=len(built), n_registered=len(system._assets),
+               late_found=[len(system.find_assets(name=a.name)) for a in late],
                hists=[h for it in items for h in _leaf_hists(Batch, it)],
                level=buf.level(), stored=sum(len(b.parts) if isinstance(b, Batch) else 1 for b in buf.stored_parts),
                started=[(type(a).__name__, common.to_ticks(a.value), common.to_ticks(v0), common.to_ticks(sum(h[2] for h in a.value_history))) for a, v0 in started])
@@ -124,6 +142,10 @@ def monitor_c16(sc, obs):
             break
     if r['net'] != r['sum_assets']:
         bad('C16/net-value', 'the system net value %d/8 is not the sum of the registered assets\' values %d/8' % (r['net'], r['sum_assets']))
+    if 'sum_built' in r and (r['net'] != r['sum_built'] or r['n_built'] != r['n_registered'] or any(k != 1 for k in r['late_found'])):
+        bad('C16/net-value-late', 'the system net value %d/8 is not the sum %d/8 of the values of the %d assets created (some of them while the simulation '
+                                  'was in progress); %d are registered, look-ups of the late ones by name find %s' %
+            (r['net'], r['sum_built'], r['n_built'], r['n_registered'], r['late_found']))
     return v
 
 
